@@ -656,7 +656,15 @@ def tie(ck, drv):
             continue
         reqs.append(f"axml {st[1]} {st[0]} {hexs(data)}")
         real.append(line)
-    model = [canon_model_walk(l) for l in drv.ask(reqs)]
+    raw = drv.ask(reqs)
+    model = []
+    for l in raw:
+        # last item: total iterations of the composed model `axmlDoc` (theorem axml_parse_steps_linear); it must be
+        # the sum of the per-call iteration counts of the walk that is compared with the real parser
+        *items, tot = l.split()
+        per_call = sum(int(it.split("#")[1]) for it in items if "#" in it)
+        ok = tot == f"T{per_call}"
+        model.append(canon_model_walk(" ".join(items)) + ("" if ok else f" composed-total-differs:{tot}/{per_call}"))
     ck.compare("axml-do-next-walk", reqs, real, model)
     evs = {}
     for l in real:
@@ -856,11 +864,17 @@ def run(ck: Check):
         slow.sort(reverse=True)
         ck.notes.append("slowest parses (cpu s, input): " + "; ".join(
             f"{c:.1f} {meta[i].get('base', meta[i].get('name'))}" for c, i in slow[:3]))
-    ck.partial.append("completeness of the loop inventory rests on the AST scan of gen/loops.py (while loops, call cycles, "
-                      "range-count loops of the three parser modules); loops in third-party code (apkInspector, lxml, mutf8) are "
+    ck.partial.append("coverage table (theorem coverage_classes): 9 of 27 entries have a Lean model with a proved bound "
+                      "(read_null_terminated_string, HiddenApiClassDataItem, DebugInfoItem, _do_next, AXMLPrinter.__init__, get_apkid, "
+                      "ARSCParser.__init__ x2, ARSCHeader); 7 are prose-only arguments (writeuleb128, writesleb128, get_information, "
+                      "_fmt_classname, print_map, get_type, ARSCParser._analyse); 11 defer to other properties with any hash accepted "
+                      "(LinearSweep -> C02; ResourceResolver x3 -> C29; APK signing block / EOCD x7 -> C33)")
+    ck.partial.append("parser-level composition is proved for AXML (axml_parse_steps_linear) and ARSC (arsc_parse_steps_linear) only; "
+                      "no Lean halting theorem for the DEX map walk (offset-addressed items, per-item count loops) or for APK/zip")
+    ck.partial.append("count_loops_consume and regexes_linear are decide-checks over flags computed syntactically by gen/loops.py; the "
+                      "semantic claims (a read consumes bytes or raises; audited patterns are linear) are not stated in Lean")
+    ck.partial.append("completeness of the inventory rests on the AST scan; third-party code (apkInspector, lxml, mutf8, re) is "
                       "reached only by the search")
-    ck.partial.append("LinearSweep (C02), reference resolution (C29) and the APK signing-block loops (C33) are covered by those "
-                      "properties' models; here they are only listed and searched")
     ck.notes.append("bounds proved: chunk iterations of _do_next / ARSCParser are linear in the file size; each ARSCHeader "
                     "dummy-data scan is linear too, and a scan may be repeated per chunk (start+size lies before the position "
                     "where the header was found), so the model's worst case for AXML is quadratic, not linear; no input "
